@@ -75,6 +75,11 @@ type SOpV struct {
 	// and comes back to the node it left)
 	Tmp  bool `json:"tmp,omitempty"`
 	Drop bool `json:"drop,omitempty"` // process: the message is {"drop":1}
+	// Gone: the request comes with a context that has already ended (a
+	// client that went away): whatever the service then does, memory
+	// and store must still agree, and a request that reports an error
+	// must not have changed the crew
+	Gone bool `json:"gone,omitempty"`
 }
 
 type ServiceCase struct {
@@ -106,6 +111,9 @@ func genSOp(t *rapid.T, label string, faults bool, pool ...string) SOpV {
 	}
 	if op.Kind == "process" {
 		op.Drop = rapid.IntRange(0, 3).Draw(t, label+".drop") == 0
+	}
+	if faults && op.Kind != "read" {
+		op.Gone = rapid.IntRange(0, 5).Draw(t, label+".gone") == 0
 	}
 	return op
 }
@@ -222,6 +230,11 @@ func viewStr(v map[string]string) string {
 }
 
 func doSOp(ctx context.Context, s *Service, op SOpV) (map[string]*core.Walked, error) {
+	if op.Gone {
+		var cancel context.CancelFunc
+		ctx, cancel = context.WithCancel(ctx)
+		cancel()
+	}
 	switch op.Kind {
 	case "add":
 		if op.Per0 {
@@ -296,6 +309,13 @@ func checkService(c ServiceCase) (v ev.Verdict) {
 			faultWindowOps[op.Kind] = true
 		}
 		_, operr := doSOp(ctx, s, op)
+		if op.Gone {
+			// a write the service has given up waiting for may still be
+			// under way: give it a moment to land before looking
+			time.Sleep(3 * time.Millisecond)
+			faultWindowOps["gone-context"] = true
+			v.Class("request-context-already-ended")
+		}
 		if operr != nil && op.Kind == "process" && op.All && !down && len(before) >= 2 {
 			// one write of several states of which at least one cannot
 			// be written
